@@ -22,7 +22,7 @@ from ..gen import values as gv
 ID = "C21"
 LEVEL = "exploration"
 BUDGET = {"quick": 20, "thorough": 240}
-MEMCHECK = {"requests": 100, "stride": 20}    # thorough: valgrind memcheck over a sample of the workload
+MEMCHECK = {"requests": 300, "stride": 10}    # thorough: valgrind memcheck over a sample of the workload
 FLOOR = {"quick": 40, "thorough": 80}
 RULE = ("random nested JSON-representable values (full i64 range, finite floats incl. integral-valued, "
         "17-significant-digit, subnormal, 1e+-308; strings/keys with control characters, quotes, "
